@@ -422,8 +422,15 @@ struct StreamWorld : World {
                 o.phase = 0; o.absorbed = o.squeezed = 0;
             } else if (c < 93) {
                 pl.add("end", {slot});
-                pl.add("free", {slot});
-                o.live = false;
+                if (is_aead(o.kind) && r.chance(2, 3)) {
+                    // next packet of the same session: start() again on the used state, no reinit
+                    unsigned rt = kind_rate(o.kind);
+                    pl.add("next", {slot, (int64_t)r.below(3), (int64_t)pick_len(r, rt, false), (int64_t)(pick_len(r, rt, false) + pick_len(r, rt, false)), (int64_t)(r.next() >> 1)});
+                    o.phase = 0;
+                } else {
+                    pl.add("free", {slot});
+                    o.live = false;
+                }
             } else if (c < 95) {
                 pl.add("perm", {slot, (int64_t)r.below(12), (int64_t)(r.next() >> 1)});
             } else {
@@ -653,6 +660,40 @@ struct StreamWorld : World {
         if (c.record) { c.run->fault("obj.copy"); c.run->state(fmt("copy/%d/%d/%u", s.p.kind, s.phase, (unsigned)(s.in.size() % 8))); }
     }
 
+    // Next packet of an incremental AEAD session: start() on the used state (documented multi-packet usage).
+    // The nonce the library will use is read from the public field, so nonce arithmetic (C14) is not judged here.
+    static void do_next(Ctx &c, const Op &op)
+    {
+        int slot = (int)(op.u(0) % NSLOTS);
+        Obj &o = c.obj[slot];
+        if (!o.live || !is_aead(o.p.kind) || o.phase != 2) return;
+        AnyState *st = &c.slots[slot];
+        o.p.variant = (int)(op.u(1) % 3);
+        o.p.n1 = (size_t)(op.u(2) % 300);
+        o.p.n3 = (size_t)(op.u(3) % 5000);
+        uint64_t sd = op.u(4);
+        o.m.ad = bytes_of(o.p.n1, sd ^ 22);
+        o.m.msg = bytes_of(o.p.n3, sd ^ 23 ^ c.salt);
+        const uint8_t *field = o.p.kind == AE128 ? st->a128.nonce : o.p.kind == AE128A ? st->a128a.nonce : st->a80.nonce;
+        o.m.nonce.assign(field, field + 16);
+        switch (o.p.kind) {
+        case AE128: ascon128_aead_start(&st->a128, ptr(o.m.ad), o.m.ad.size()); break;
+        case AE128A: ascon128a_aead_start(&st->a128a, ptr(o.m.ad), o.m.ad.size()); break;
+        default: ascon80pq_aead_start(&st->a80, ptr(o.m.ad), o.m.ad.size()); break;
+        }
+        aead_oneshot(o.p.kind, o.ct, o.m);
+        if (o.p.variant == 2) {
+            size_t bit = (size_t)(sd % (o.ct.size() * 8));
+            o.ct[bit / 8] ^= (uint8_t)(1u << (bit % 8));
+            if (c.record) c.run->fault("aead.tamper");
+        }
+        o.in.clear();
+        o.out.clear();
+        o.pos = 0;
+        o.phase = 0;
+        if (c.record) { c.run->fault("obj.next_packet_same_state"); c.run->state(fmt("next/%d/%d", o.p.kind, o.p.variant)); }
+    }
+
     // a bare permutation state used through the public permutation API, then freed (C13: nothing secret may remain)
     static void do_perm(Ctx &c, const Op &op)
     {
@@ -694,6 +735,7 @@ struct StreamWorld : World {
             else if (op.name == "copy") do_copy(c, op);
             else if (op.name == "free") do_free(c, (int)(op.u(0) % NSLOTS), true);
             else if (op.name == "perm") do_perm(c, op);
+            else if (op.name == "next") do_next(c, op);
         }
         for (int s = 0; s < NSLOTS; ++s) do_free(c, s, false);
         free(c.slots);
